@@ -75,6 +75,7 @@ struct Agg {
     searches: u64,
     short: u64,
     nonempty: u64,
+    full_bound: u64,
     cap_reached: u64,
     states: BTreeSet<u64>,
     nontrivial: BTreeSet<u64>,
@@ -95,6 +96,7 @@ fn run_item(item: &Item, deadline: std::time::Instant) -> Agg {
         agg.searches += out.tally.searches;
         agg.short += out.tally.short_results;
         agg.nonempty += out.tally.nonempty_results;
+        agg.full_bound += out.tally.full_bound;
         agg.cap_reached += out.cap_reached as u64;
         match &out.result {
             Ok(()) => {
@@ -208,6 +210,7 @@ fn main() {
                 run.add("transitions", if depth > 0 { a.histories } else { 0 });
                 run.add("evaluations", a.searches);
                 run.add("searches_nonempty", a.nonempty);
+                run.add("searches_required_to_return_min_k_n", a.full_bound);
                 short_seen |= a.short > 0;
                 if stage == "layercap" {
                     run.add("layercap_histories", a.histories);
@@ -252,7 +255,7 @@ fn main() {
          metrics x 2 selection strategies x reconnect_on_delete on/off (thorough: x 2 graph regimes) x declared layer seeds, plus a stage with small max_layers (1,2; thorough also 3,4 with scale_factor 3) in which the layer cap is really reached \
          (counter layercap_histories_at_layer_cap), plus a stage over EVERY dimension 2..=64 (short histories from the full base; SIMD lane remainder paths); each history is \
          executed from scratch on the real HnswIndex and after its last operation every stored vector + 3 out-of-distribution queries are \
-         searched with k=1..n+1 and compared with the VecModel; states = distinct (configuration, depth, live set + vectors); distinct \
+         searched with k=1..n+1 and compared with the VecModel, incl. completeness: at least min(k, R) results, R = fewest live nodes reachable over layer-0 edges from any live node (read off the graph; R = n on a strongly connected layer 0, counter searches_required_to_return_min_k_n; ef_search = 2 < k in the tight regime); states = distinct (configuration, depth, live set + vectors); distinct \
          non-trivial = states with >= 2 live vectors",
     );
     run.assume("layer assignment is exhaustive only over the declared layer seeds (verif hook), not over all random draws");
